@@ -61,6 +61,14 @@ pub(super) fn dispatch(repo: &gix::Repository, matches: &clap::ArgMatches) -> Re
             .find_reference(stack.get_stack_refname())
             .expect("just found this stack state reference")
             .peel_to_commit()?;
+        let new_state_refname = state_refname_from_branch_name(new_branchname.as_ref());
+        if repo.try_find_reference(&new_state_refname)?.is_some() {
+            // N.B. MustNotExist below accepts an existing reference that already has
+            // the new value, e.g. the stack this one was cloned from.
+            return Err(anyhow!(
+                "stack state reference `{new_state_refname}` already exists"
+            ));
+        }
         repo.edit_reference(gix::refs::transaction::RefEdit {
             change: gix::refs::transaction::Change::Update {
                 log: gix::refs::transaction::LogChange {
@@ -71,11 +79,16 @@ pub(super) fn dispatch(repo: &gix::Repository, matches: &clap::ArgMatches) -> Re
                 expected: gix::refs::transaction::PreviousValue::MustNotExist,
                 new: gix::refs::Target::Object(state_commit.id),
             },
-            name: gix::refs::FullName::try_from(state_refname_from_branch_name(
-                new_branchname.as_ref(),
-            ))?,
+            name: gix::refs::FullName::try_from(new_state_refname.as_str())?,
             deref: false,
         })?;
+        if let Err(e) = stupid.branch_move(Some(old_branchname.as_ref()), new_branchname.as_ref())
+        {
+            // git refused the new name: take the new state reference back so that the
+            // refused rename leaves nothing behind.
+            repo.find_reference(&new_state_refname)?.delete()?;
+            return Err(e);
+        }
 
         let mut local_config_file = repo.local_config_file().context("opening local config")?;
         let old_section_name = format!("{old_branchname}.stgit");
@@ -103,7 +116,6 @@ pub(super) fn dispatch(repo: &gix::Repository, matches: &clap::ArgMatches) -> Re
                 .context("writing local config")?;
         }
 
-        stupid.branch_move(Some(old_branchname.as_ref()), new_branchname.as_ref())?;
         stack.deinitialize()?;
         // Opening the renamed stack creates its patch references.
         Stack::from_branch_name(
